@@ -680,6 +680,15 @@ def parse_equation(equation: str) -> List[Symbol]:
 
         symbols[name] = symbols.get(name, symbol).combine(symbol)
 
+    # Error if the statement has no variable on its left-hand side to carry
+    # the equation (which would otherwise be silently dropped)
+    if not any(
+        s.type == Type.ENDOGENOUS and s.equation is not None for s in symbols.values()
+    ):
+        raise ParserError(
+            f"Failed to find a left-hand side variable in equation: '{equation}'"
+        )
+
     return list(symbols.values())
 
 
